@@ -1,7 +1,7 @@
 """C13 — hash256 is a structural fingerprint computed as real SHA-256 (DESIGN.md §5 C13)."""
 import vcheck, os
 
-MODULES = ["BeffVerif.Props.C13", "BeffVerif.Props.C13Inj", "BeffVerif.Props.C13Tree", "BeffVerif.Props.C13Rec", "BeffVerif.Props.C13Names", "BeffVerif.Props.C13Total", "BeffVerif.Props.C13Hash32", "BeffVerif.Props.Consts"]
+MODULES = ["BeffVerif.Props.C13", "BeffVerif.Props.C13Inj", "BeffVerif.Props.C13Tree", "BeffVerif.Props.C13Rec", "BeffVerif.Props.C13Names", "BeffVerif.Props.C13Total", "BeffVerif.Props.C13Hash32", "BeffVerif.Props.C13Total32", "BeffVerif.Props.Consts"]
 AUDIT = "BeffVerif/Audit/C13.lean"
 
 def run(chk):
